@@ -569,6 +569,18 @@ def gen_shared_expiry(rng, world=None, audit=None):
             continue                                # never answered: must time out at K
         h2 = rng.choice([x for x in range(it[0], last + 1)])
         tl[h2].append(rcp(it))
+    if R + 1 <= K - 1 and rng.random() < 0.35:
+        # a late joiner: registered for the same height K after the block that packed the receipts (when those
+        # emptied the list, the new id is written onto an emptied list)
+        hb = rng.randrange(R + 1, K)
+        s2 = rng.choice(srcs)
+        d2 = rng.choice([x for x in dsts if x != s2])
+        idx2 = nxt.get((s2, d2), 0) + 1
+        nxt[(s2, d2)] = idx2
+        tl[hb].insert(0, [1, s2, d2, idx2, K - hb, 0, 0, 1])
+        items.append((hb, s2, d2, idx2))
+        if rng.random() < 0.4:
+            tl[rng.randrange(hb, last + 1)].append(rcp((hb, s2, d2, idx2)))
     if rng.random() < 0.3:
         # a late receipt (rollback confirmation) after K for something that timed out
         it = rng.choice(items)
@@ -684,6 +696,79 @@ def gen_shared_group_expiry(rng, world=None, audit=None):
     return mk_history(world, blocks, audit=audit)
 
 
+W_PREFIX = dict(svcs=[[0, 2, 1, 1, 1, []],      # 1  B   "…:chainB:svc1"   (a prefix of svc11 / svc12)
+                      [0, 1, 1, 1, 1, []],      # 2  A   source
+                      [0, 3, 1, 1, 1, []],      # 3  C
+                      [0, 3, 1, 1, 1, []], [0, 3, 1, 1, 1, []], [0, 3, 1, 1, 1, []], [0, 3, 1, 1, 1, []],
+                      [0, 3, 1, 1, 1, []], [0, 3, 1, 1, 1, []], [0, 3, 1, 1, 1, []],     # 4..10 fillers on C
+                      [0, 2, 1, 1, 1, []],      # 11 B   "…:chainB:svc11"
+                      [0, 2, 1, 1, 1, []]],     # 12 B   "…:chainB:svc12"
+                hubs=[])
+WORLDS["prefix"] = W_PREFIX
+
+
+def gen_colliding_groups(rng, world=None, audit=None):
+    """two (sometimes three) one-to-many groups of ONE source in flight at the same time, with realistic Group
+    declarations {destination service id -> index} whose (service id, index) pairs are concatenation-ambiguous:
+    service svc1 with index "<d><j>" against service svc1<d> with index "<j>" (indices >= 10 are reached through
+    prior one-to-one traffic on the pair), optionally with an identical second entry in both declarations.
+    Different declarations must be different groups whatever the ids look like."""
+    world = world or W_PREFIX
+    src = 2
+    ext = rng.choice([11, 11, 11, 12])
+    d = ext % 10
+    j = rng.randrange(1, 4)
+    P = int("%d%d" % (d, j)) + (rng.choice([1, 2]) if rng.random() < 0.2 else 0)      # sometimes not ambiguous (control)
+    T = rng.choice([0, 0, 0, 6, 9])
+    two = rng.random() < 0.6
+    decl1 = [[1, str(P)]] + ([[3, "1"]] if two else [])
+    decl2 = [[ext, str(j)]] + ([[3, "1"]] if two else [])
+    n = len(decl1)
+    blocks = []
+    # prior one-to-one traffic that brings the pairs to the wanted indices: requests, then their receipts
+    # (receipts of an ordered pair are accepted in index order only)
+    reqs = [[1, src, 1, i, 0, 0, 0, 1] for i in range(1, P)] + [[1, src, ext, i, 0, 0, 0, 1] for i in range(1, j)]
+    rcs = [[2, src, 1, i, rng.choice([1, 1, 1, 2]), 1] for i in range(1, P)] + [[2, src, ext, i, 1, 1] for i in range(1, j)]
+    if rng.random() < 0.5:
+        blocks.append(reqs + rcs)
+    else:
+        blocks.append(reqs)
+        blocks.append(rcs)
+    a1 = [1, src, 1, P, T, 1, n, 1]
+    b1 = [1, src, ext, j, T, 2, n, 1]
+    a2 = [1, src, 3, 1, T, 1, n, 1]
+    ev = [a1, b1] if rng.random() < 0.5 else [b1, a1]
+    if two and rng.random() < 0.3:
+        ev.insert(rng.randrange(0, 3), a2)
+        a2 = None
+    rcps = [[2, src, 1, P, 1, 1], [2, src, ext, j, 1, 1]]
+    rng.shuffle(rcps)
+    fate = rng.choice(["success", "success", "fail", "partial"])
+    if fate == "fail":
+        rcps[rng.randrange(2)][4] = 2
+    if fate == "partial":
+        rcps = rcps[:1]
+    ev.append("cut")
+    ev += rcps
+    if two and a2 is not None:
+        ev.append("cut")
+        ev.append(a2)
+        if rng.random() < 0.7:
+            ev.append([2, src, 3, 1, rng.choice([1, 1, 2]), 1])
+    if rng.random() < 0.3:
+        ev.append([2, src, ext, j, rng.choice([1, 2, 3]), 1])          # duplicate / contradictory report
+    if rng.random() < 0.3:
+        # an unrelated third group with the abstract declaration
+        ev.insert(rng.randrange(0, len(ev) + 1), [1, src, 4, 1, T, 3, 1, 1])
+    blocks += pack_blocks(rng, ev, p_new_block=0.35, p_empty=0.1, p_restart=0.05)
+    blocks += [[] for _ in range(rng.choice([0, 1, 2]))]
+    if audit is None:
+        audit = 1 if rng.random() < 0.1 else 0
+    h = mk_history(world, blocks, audit=audit)
+    h["groups"] = [[src, 1, decl1], [src, 2, decl2]]
+    return h
+
+
 def gen_hub(rng, world=None, audit=None):
     """this hub as SOURCE hub: requests to services of remote BitXHubs (one available, one not) and the
     destination hub's begin-failure / rollback notices, mixed with local traffic"""
@@ -788,8 +873,16 @@ def eval_histories(ctx, pid, exe, hs, tag):
         pairs = []
         for h, r in zip(chunk, res):
             if r is None or r[0]:
-                ctx.broken("driver:ibtp", (r[0] if r else "driver died: " + e[-800:]))
-                continue
+                # once more on its own (a loaded machine can exceed the executor's 30 s answer window; a driver
+                # that died takes the rest of its chunk with it); a history that fails again is reported with its input
+                rc1, res1, e1 = run_impl(exe, [h])
+                if res1 and res1[0] is not None and not res1[0][0]:
+                    ctx.extra["driver_retries"] = ctx.extra.get("driver_retries", 0) + 1
+                    r = res1[0]
+                else:
+                    ctx.broken("driver:ibtp", "%s; history: %s" % ((res1[0][0] if res1 and res1[0] else r[0] if r else "driver died: " + (e1 or e)[-800:]),
+                                                                  json.dumps(dict(property=pid, driver="ibtp", history=h))[:2500]))
+                    continue
             if len(r[1]) != n_blocks(h):
                 ctx.broken("driver:ibtp", "block count mismatch")
                 continue
